@@ -8,6 +8,7 @@ import (
 	"fmt"
 	"math/big"
 
+	clp "github.com/Sifchain/sifnode/x/clp"
 	clptypes "github.com/Sifchain/sifnode/x/clp/types"
 	sdk "github.com/cosmos/cosmos-sdk/types"
 )
@@ -98,8 +99,32 @@ func init() {
 				w.app.ClpKeeper.SetPmtpRateParams(w.ctx, rp)
 				w.cfg("r " + r.String())
 			}
+			// a ratio-shifting (PMTP) policy window running through this world (1 world in 3): the real clp BeginBlocker
+			// drives the running rate block by block; the model takes the STORED running rate after every BeginBlocker
+			// as configuration (cfg r), which is what swaps and liquidity messages must both use
+			policyEnd := int64(0)
+			if rng.Chance(1, 3) {
+				start := w.height + 1
+				length := int64(1 + rng.Intn(6))
+				policyEnd = start + length - 1
+				gov := new(big.Int).Quo(rng.Rate01(), big.NewInt(int64(1+rng.Intn(10))))
+				w.app.ClpKeeper.SetPmtpParams(w.ctx, &clptypes.PmtpParams{PmtpPeriodGovernanceRate: decRaw(gov), PmtpPeriodEpochLength: int64(1 + rng.Intn(3)), PmtpPeriodStartBlock: start, PmtpPeriodEndBlock: policyEnd})
+				w.app.ClpKeeper.SetPmtpEpoch(w.ctx, clptypes.PmtpEpoch{EpochCounter: 0, BlockCounter: 0})
+			}
+			nextBlock := func() {
+				w.setHeight(w.height + 1)
+				func() {
+					defer func() { _ = recover() }()
+					clp.BeginBlocker(w.ctx, w.app.ClpKeeper)
+				}()
+				r := w.app.ClpKeeper.GetPmtpRateParams(w.ctx).PmtpCurrentRunningRate.BigInt()
+				w.cfg("r " + r.String())
+			}
 			for i := 0; i < 40 && done < n; i++ {
 				done++
+				if policyEnd > 0 && w.height <= policyEnd+1 && i%4 == 3 {
+					nextBlock()
+				}
 				sym := ammTokens[rng.Intn(len(ammTokens))]
 				p := w.pool(sym)
 				if p == nil {
